@@ -1,6 +1,7 @@
 package rules
 
 import (
+	"sort"
 	"os"
 	"fmt"
 	"go/constant"
@@ -686,6 +687,142 @@ func appendedElems(ci *ssa.Call) []ssa.Value {
 					out = append(out, st.Val)
 				}
 			}
+		}
+	}
+	return out
+}
+
+// lessForm normalises an ordering comparison to "a < b" (xor neg): x >= y is (x < y, neg), x <= y is
+// (y < x, neg), x > y is (y < x), !(e) flips neg. ok=false when v is not an ordering comparison.
+func lessForm(v ssa.Value) (a, b ssa.Value, neg, ok bool) {
+	v = core.Strip(v)
+	if u, isU := v.(*ssa.UnOp); isU && u.Op == token.NOT {
+		a, b, neg, ok = lessForm(u.X)
+		return a, b, !neg, ok
+	}
+	bo, isB := v.(*ssa.BinOp)
+	if !isB {
+		return nil, nil, false, false
+	}
+	switch bo.Op {
+	case token.LSS:
+		return bo.X, bo.Y, false, true
+	case token.GEQ:
+		return bo.X, bo.Y, true, true
+	case token.GTR:
+		return bo.Y, bo.X, false, true
+	case token.LEQ:
+		return bo.Y, bo.X, true, true
+	}
+	return nil, nil, false, false
+}
+
+// ownerOf: the function a piece of code logically belongs to for who-may-write rules: closures
+// belong to their parent; an unexported function/method all of whose static call sites lie in one
+// function (after the same reduction) belongs to that caller (a block extracted into a private
+// helper keeps its owner).
+func ownerOf(c *core.Ctx, fn *ssa.Function) *ssa.Function {
+	seen := map[*ssa.Function]bool{}
+	for fn != nil && !seen[fn] {
+		seen[fn] = true
+		if par := fn.Parent(); par != nil {
+			fn = par
+			continue
+		}
+		if fn.Object() == nil || fn.Object().Exported() {
+			return fn
+		}
+		var owner *ssa.Function
+		okk := true
+		cs := c.P.CallersOf(fn)
+		for _, s := range cs {
+			o := enclosing(s.Fn)
+			if o == fn {
+				continue
+			}
+			if owner == nil {
+				owner = o
+			} else if owner != o {
+				okk = false
+			}
+		}
+		if !okk || owner == nil || len(c.P.FuncValueUses(fn)) > 0 {
+			return fn
+		}
+		fn = owner
+	}
+	return fn
+}
+
+// retCtx is a return instruction found in fn itself or in a private helper whose result fn returns
+// unchanged (`if err := t.check(k, v); err != nil { return err }`), together with a renaming of the
+// helper's parameter names (in atoms/provenance) to the caller's argument descriptions.
+type retCtx struct {
+	Fn     *ssa.Function
+	Ret    *ssa.Return
+	Rename func(string) string
+}
+
+// deepReturns: the returns of fn, where a return that hands back result #0 of a private same-package
+// helper is replaced by that helper's returns (one level).
+func deepReturns(c *core.Ctx, fn *ssa.Function) []retCtx {
+	var out []retCtx
+	id := func(s string) string { return s }
+	for _, r := range returnsOf(fn) {
+		expanded := false
+		for _, res := range r.Results {
+			ex := core.Strip(res)
+			var cl *ssa.Call
+			switch x := ex.(type) {
+			case *ssa.Call:
+				cl = x
+			case *ssa.Extract:
+				cl, _ = x.Tuple.(*ssa.Call)
+			}
+			if cl == nil {
+				continue
+			}
+			g := cl.Call.StaticCallee()
+			if g == nil || len(g.Blocks) == 0 || g.Pkg != fn.Pkg || g.Object() == nil || g.Object().Exported() || !isErrorType(res.Type()) {
+				continue
+			}
+			// parameter renaming
+			pv := c.P.Prov()
+			ren := map[string]string{}
+			off := 0
+			if g.Signature.Recv() != nil {
+				off = 1
+				if d := pv.Desc(cl.Call.Args[0]); len(d) == 1 {
+					ren["recv"] = d[0]
+				}
+			}
+			for i := off; i < len(cl.Call.Args); i++ {
+				if d := pv.Desc(cl.Call.Args[i]); len(d) == 1 {
+					ren[fmt.Sprintf("param#%d", i-off)] = d[0]
+				}
+			}
+			rename := func(s string) string {
+				// replace longest keys first; param#1 must not clobber param#10
+				keys := make([]string, 0, len(ren))
+				for k := range ren {
+					keys = append(keys, k)
+				}
+				sort.Slice(keys, func(i, j int) bool { return len(keys[i]) > len(keys[j]) })
+				for i, k := range keys {
+					s = strings.ReplaceAll(s, k, fmt.Sprintf("\x00%d\x00", i))
+				}
+				for i, k := range keys {
+					s = strings.ReplaceAll(s, fmt.Sprintf("\x00%d\x00", i), ren[k])
+				}
+				return s
+			}
+			for _, r2 := range returnsOf(g) {
+				out = append(out, retCtx{g, r2, rename})
+			}
+			expanded = true
+		}
+		if !expanded {
+			out = append(out, retCtx{fn, r, id})
 		}
 	}
 	return out
